@@ -38,14 +38,14 @@ Qed.
 
 (* ---- src_ok *)
 Definition group_ok (fp : list trait) (t0 : mbase) (g : N * list mbase) : bool :=
-  (negb (group_in fp (fst g)) || is_some (map_find (fst g) (mb_groups t0))) &&
+  (negb (group_in fp (fst g)) || is_some (find_sub (mb_subs t0) (fst g))) &&
   match snd g with
   | [] => true
   | els =>
     group_owned fp (fst g) &&
-    match map_find (fst g) (mb_groups t0), find_sub (mb_subs t0) (fst g) with
-    | Some _, Some sg => forallb (fun e => src_ok e (create_group sg true)) els
-    | _, _ => false
+    match find_sub (mb_subs t0) (fst g) with
+    | Some sg => forallb (fun e => src_ok e (create_group sg true)) els
+    | None => false
     end
   end.
 
@@ -65,7 +65,7 @@ Proof.
   { subst sub. induction groups as [|[f els] r IH]; [reflexivity|]. cbn [map fst snd]. f_equal. exact IH. }
   rewrite Hs. rewrite forallb_map. apply forallb_ext. intros [f els]. unfold group_ok. cbn [fst snd].
   f_equal. destruct els as [|e els]; [reflexivity|]. cbn [map]. f_equal.
-  destruct (map_find f (mb_groups t0)); [|reflexivity]. destruct (find_sub (mb_subs t0) f); [|reflexivity].
+  destruct (find_sub (mb_subs t0) f); [|reflexivity].
   change (src_ok e :: map src_ok els) with (map src_ok (e :: els)). rewrite forallb_map. reflexivity.
 Qed.
 
